@@ -117,18 +117,16 @@ Definition stmt_struct : Prop :=
        = (m_ref, mr_ok [], [EvApp 1 [inst; off; 77] data]).
 
 (* ---- (d) a one-element slice of a BOOL array, `arr[i]{1}`, written with the one-item list [x]:
-   the driver treats it as a bit write of the LIST's truthiness.  [excluded x] = the value is outside
-   the statement. *)
-Definition stmt_bool_slice1 (excluded : bool -> bool) : Prop :=
+   planned as a bit write; set_bit takes the item of a one-item list *)
+Definition stmt_bool_slice1 : Prop :=
   forall p m r inst off nbits start x m_ref img,
-  excluded x = false ->
   resolve p r = Some (PlBools inst off nbits start) -> r_bit r = None -> r_count r = Some 1 ->
   mem_get m inst = Some img -> bytes_ok img = true ->
   0 <= start -> 0 <= off -> off + 4 * (start / 32) + 4 <= Expect.blen img ->
   ref_write p m r (RList [RBool x]) = Some m_ref ->
   let l := mkWLoc inst (off + 4 * (start / 32)) (BAtom C_DWORD) [] (nbits / 32 - start / 32) None in
-  let o := fst (rmw_masks true [(start, truthy (PList [PBool x]))]) in
-  let a := snd (rmw_masks true [(start, truthy (PList [PBool x]))]) in
+  let o := fst (rmw_masks true [(start, truthy (unwrap_one (PList [PBool x])))]) in
+  let a := snd (rmw_masks true [(start, truthy (unwrap_one (PList [PBool x])))]) in
   exists ob ab stored,
     mask_bytes o 4 = Ok ob /\ mask_bytes a 4 = Ok ab
     /\ svc_rmw p m img l (rmw_data 4 ob ab) = (m_ref, mr_ok [], [EvApp 1 [inst; off + 4 * (start / 32); 78] stored]).
@@ -199,19 +197,3 @@ Example ex_struct :
        = (expect, mr_ok [], [EvApp 1 [9; 0; 77] [33; 0; 254; 255; 1; 0; 0; 0; 255; 255; 255; 255]])
   end.
 Proof. vm_compute. repeat split; reflexivity. Qed.
-
-(* (d) is FALSE for x = False: bools[1]{1} := [False] on a word whose bit 1 is clear.  The reference
-   leaves the memory as it is; the driver's Read-Modify-Write sets the bit ([False] is a non-empty list). *)
-Theorem stmt_bool_slice1_refuted : ~ stmt_bool_slice1 (fun _ => false).
-Proof.
-  intros H.
-  specialize (H ex_proj ex_mem (mkReq None [mkSeg (zs "bools") [1]] None (Some 1)) 7 0 96 1 false ex_mem
-                [1; 2; 3; 4; 5; 6; 7; 8; 9; 10; 11; 12] eq_refl).
-  assert (R : resolve ex_proj (mkReq None [mkSeg (zs "bools") [1]] None (Some 1)) = Some (PlBools 7 0 96 1)) by (vm_compute; reflexivity).
-  assert (W : ref_write ex_proj ex_mem (mkReq None [mkSeg (zs "bools") [1]] None (Some 1)) (RList [RBool false]) = Some ex_mem) by (vm_compute; reflexivity).
-  specialize (H R eq_refl eq_refl eq_refl eq_refl).
-  assert (A1 : 0 <= 1) by (vm_compute; discriminate). assert (A2 : 0 <= 0) by (vm_compute; discriminate).
-  assert (A3 : 0 + 4 * (1 / 32) + 4 <= Expect.blen [1; 2; 3; 4; 5; 6; 7; 8; 9; 10; 11; 12]) by (vm_compute; discriminate).
-  specialize (H A1 A2 A3 W). cbv zeta in H. destruct H as (ob & ab & stored & Ho & Ha & Hs).
-  vm_compute in Ho, Ha. injection Ho as <-. injection Ha as <-. vm_compute in Hs. discriminate Hs.
-Qed.
